@@ -93,3 +93,35 @@ case(H + "size", params={"xs": List(INT)}, returns=INT,
      globals={"len": Val.obj(FuncRef(None, "selftest.len"))}, models={"selftest.len": _len_model},
      ensures={"n": "result == len(xs)"}, canaries={"one": "result == 1"},
      gen=lambda rng: {"xs": [0] * rng.randint(0, 3)})
+
+# ---- a local that aliases a container stored in a field: mutations through the local are mutations of the field ----------------------------
+cls("HCtx", fields={"modified": Set(STR), "rows": Dict(STR, List(INT))}, repo=H + "HCtx")
+
+
+def mk_ctx(mod=(), rows=None):
+    c = M.HCtx()
+    c.modified = set(mod)
+    c.rows = {k: list(v) for k, v in (rows or {}).items()}
+    return c
+
+
+case(H + "alias_add", params={"ctx": Ref("HCtx"), "x": STR}, returns=INT, modifies=["HCtx.modified"],
+     ensures={"added": "x in ctx.modified", "kept": "all(y in ctx.modified for y in old(ctx.modified))"},
+     canaries={"unchanged": "ctx.modified == old(ctx.modified)"},
+     gen=lambda rng: {"mod": names(rng), "x": rng.choice(["a", "q"])}, build=lambda d: {"ctx": mk_ctx(d["mod"]), "x": d["x"]})
+case(H + "alias_then_direct", params={"ctx": Ref("HCtx"), "x": STR, "y": STR}, returns=BOOL if False else __import__("pyvc.api", fromlist=["BOOL"]).BOOL, modifies=["HCtx.modified"],
+     ensures={"both": "result", "field": "x in ctx.modified and y in ctx.modified"},
+     canaries={"unchanged": "ctx.modified == old(ctx.modified)", "false": "not result"},
+     gen=lambda rng: {"mod": names(rng), "x": "p", "y": "q"}, build=lambda d: {"ctx": mk_ctx(d["mod"]), "x": d["x"], "y": d["y"]})
+case(H + "alias_rebind_field", params={"ctx": Ref("HCtx"), "x": STR}, returns=INT, modifies=["HCtx.modified"],
+     # the field is re-bound to a new set: the local keeps the OLD object, the new one stays empty
+     ensures={"empty": "result == 0 and ctx.modified == set()"}, canaries={"has-x": "x in ctx.modified", "one": "result == 1"},
+     gen=lambda rng: {"mod": names(rng), "x": "p"}, build=lambda d: {"ctx": mk_ctx(d["mod"]), "x": d["x"]})
+case(H + "alias_loop", params={"ctx": Ref("HCtx"), "xs": List(STR)}, returns=INT, modifies=["HCtx.modified"],
+     ensures={"all": "all(x in ctx.modified for x in xs)", "kept": "all(y in ctx.modified for y in old(ctx.modified))"},
+     canaries={"unchanged": "ctx.modified == old(ctx.modified)"},
+     loops={"for x in xs": Loop(index="i", invariants={"done": "all(xs[j] in ctx.modified for j in range(i))", "kept": "all(y in ctx.modified for y in old(ctx.modified))"})},
+     gen=lambda rng: {"mod": names(rng), "xs": ["p"] + names(rng)}, build=lambda d: {"ctx": mk_ctx(d["mod"]), "xs": d["xs"]})
+# a container taken out of another container (`row = ctx.rows[k]`) and mutated: no write-through model -> refused
+case(H + "alias_item", params={"ctx": Ref("HCtx"), "k": STR, "x": INT}, returns=INT, modifies=["HCtx.rows"], requires=["k in ctx.rows"],
+     expect="unsupported", msg="aliased")
